@@ -14,7 +14,7 @@ ASSUMPTIONS = ['the device is a scripted fake connection (subclass of AsynConn: 
                'virtual time: every recv() without data advances the clock by a symbolic step in [0.25, 1] s (the inter byte time-out), '
                'call instants of the rate limit scenario are symbolic and non decreasing in a box of 100 s',
                'chunking: device output is cut at positions chosen by symbolic selectors',
-               'concurrent callers (pairing under real threads) and real sockets / serial lines are outside the claim']
+               'concurrent callers are explored by harness/C16_races.py; real sockets / serial lines are outside the claim']
 REQUIRED_TAGS = ['reply', 'timeout', 'reconnected', 'refused']
 LIMITS = {'quick': {'max_paths': 20000, 'max_s': 150}, 'thorough': {'max_paths': 200000, 'max_s': 900}}
 
